@@ -147,6 +147,31 @@ impl Engine for C05 {
                 out.push(Program { keys: bkeys, blobs: blobs.to_vec(), steps });
             }
         }
+        // long histories on one key: the bucket grows past 8 KiB, 64 KiB and (thorough) 1 MiB
+        for (variant, nsteps) in [(0usize, tier.pick(260usize, 1500usize)), (1, tier.pick(120, 400))] {
+            let lkeys = vec!["long-history".to_string(), "bystander".to_string()];
+            let mut steps = vec![Step { op: Op::Write(WriteSpec::simple(Some(1), 2)), fl: Fl::Sync }];
+            for i in 0..nsteps {
+                let fl = if (i / 3 + variant) % 2 == 0 { Fl::Sync } else { Fl::Async };
+                let op = if i % 7 == 6 {
+                    Op::Remove { key: 0 }
+                } else {
+                    let mut w = WriteSpec::simple(Some(0), i % 3);
+                    if i % 2 == variant {
+                        w.entry = WEntry::Opts;
+                        w.time = Some((1000 + i).to_string());
+                        // record lengths vary from ~200 bytes to several KiB
+                        w.metadata = Some(serde_json::Value::String("m".repeat((i * 37) % 3000)));
+                        if variant == 1 && i % 10 == 1 {
+                            w.raw_metadata = Some(vec![7u8; 3000]);
+                        }
+                    }
+                    Op::Write(w)
+                };
+                steps.push(Step { op, fl });
+            }
+            out.push(Program { keys: lkeys, blobs: blobs.to_vec(), steps });
+        }
         if tier == Tier::Thorough {
             // length 5 over a 6-symbol sub-alphabet
             let sub: Vec<Step> = [0usize, 1, 4, 6, 7, 10].iter().map(|&i| al[i].clone()).collect();
@@ -171,7 +196,8 @@ impl Engine for C05 {
     }
     fn run_case(&self, prog: &Program, st: &mut Stats, env: &mut WorkerEnv) -> Result<(), String> {
         env.scratch.reset();
-        let ctx = Ctx::new(env.scratch.cache.clone(), env.scratch.scratch.clone(), &prog.keys, &prog.blobs);
+        // the cache directory is spelled in different (equivalent) ways from case to case
+        let ctx = Ctx::new(env.scratch.cache_alias(hash_of(prog) >> 3), env.scratch.scratch.clone(), &prog.keys, &prog.blobs);
         let mut model = Model::new();
         let mut records: std::collections::HashMap<usize, Vec<usize>> = Default::default();
         let mut removed: std::collections::HashSet<usize> = Default::default();
